@@ -2,6 +2,7 @@ package sg
 
 import (
 	"bytes"
+	"regexp"
 	"strings"
 
 	"verif/internal/jsonx"
@@ -90,7 +91,7 @@ func writeYAML(b *bytes.Buffer, v any, ind int, st YAMLStyle, inSeq bool) {
 				b.WriteString(pad)
 			}
 			k := quoted(kv.K)
-			if st == YAMLBlockBare && bareSafe(kv.K) {
+			if st == YAMLBlockBare && (bareSafe(kv.K) || canonicalNonString(kv.K)) {
 				k = kv.K
 			}
 			b.WriteString(k)
@@ -120,4 +121,13 @@ func writeYAML(b *bytes.Buffer, v any, ind int, st YAMLStyle, inSeq bool) {
 			}
 		}
 	}
+}
+
+var reCanonInt = regexp.MustCompile(`^(0|-?[1-9][0-9]{0,8})$`)
+var reCanonDec = regexp.MustCompile(`^-?(0|[1-9][0-9]{0,5})\.[0-9]{0,3}[1-9]$`)
+
+// canonicalNonString reports whether the key text is the canonical rendering of a YAML integer, decimal or
+// boolean, so that writing it unquoted yields a non-string mapping key with the same text.
+func canonicalNonString(s string) bool {
+	return s == "true" || s == "false" || reCanonInt.MatchString(s) || reCanonDec.MatchString(s)
 }
